@@ -182,7 +182,7 @@ pub fn basic_sources() -> Vec<Src> {
 }
 
 pub fn run(cfg: &Cfg, rep: &mut Report) {
-  let len = cfg.n(3, 5);
+  let len = cfg.n(3, 6);
   let scripts = all_scripts(&[0, 1, 2], len);
   let ops = single_op_variants(len);
   let mut idx = 0usize;
@@ -214,7 +214,7 @@ pub fn run(cfg: &Cfg, rep: &mut Report) {
     }
   }
   // (iii) random chains of depth 2..=5 (quick: ..=4)
-  let total = cfg.n(40_000, 1_600_000);
+  let total = cfg.n(40_000, 30_000_000);
   let maxd = cfg.n(4, 5);
   let mut rng = Rng::new(cfg.seed ^ 0xC03);
   for i in 0..total {
